@@ -31,6 +31,10 @@ type Session struct {
 	Conn net.Conn
 	Role Role
 
+	// CreatedAtSkew (server role) is added to the CreatedAt of the tokens this
+	// end issues: a server whose clock differs from the client's.
+	CreatedAtSkew time.Duration
+
 	// Policy and Mode of the channel. A client sets both before OpenRequest; a
 	// server learns them from the OPN request (ReadOpenRequest).
 	Policy *Policy
@@ -278,7 +282,7 @@ func (s *Session) OpenResponse(requestID, seq uint32, handle uint32, serverNonce
 	resp := &ua.OpenSecureChannelResponse{
 		ResponseHeader: NewResponseHeader(handle),
 		SecurityToken: &ua.ChannelSecurityToken{ChannelID: s.ChannelID, TokenID: s.TokenID,
-			CreatedAt: time.Now().UTC(), RevisedLifetime: lifetimeMS},
+			CreatedAt: time.Now().UTC().Add(s.CreatedAtSkew), RevisedLifetime: lifetimeMS},
 		ServerNonce: serverNonce,
 	}
 	body, err := EncodeService(resp)
